@@ -40,7 +40,7 @@ Import ListNotations.
 Local Open Scope Z_scope.
 
 (* the parameters as they are in /repo now (regenerated on every run) *)
-Definition cparams : params := mkParams certValidity clockSkewAllowance verifyMaxLifetime verifyRsaRule.
+Definition cparams : params := mkParams certValidity clockSkewAllowance verifyMaxLifetime verifyLeafLast.
 
 (* the numbers the property text fixes *)
 Definition spec_max_validity : Z := 14 * 24 * 3600 * SEC.
@@ -172,19 +172,20 @@ Definition events_wf (maxgap : Z) (l : list ev) : bool :=
 (* ---- the property on one verifier call / one dial -------------------------- *)
 (* "accepts a server certificate only if its SHA-256 equals one of the hashes
    in the dialed address and it meets the validity rules (not RSA, at most 14
-   days, currently valid)".  The stated quantifier has chains of length 0 and
-   1; longer chains are outside it (see DESIGN.md 9, item 11). *)
+   days, currently valid)".  The server certificate of a presented chain is its
+   FIRST entry: that is the certificate whose key signs the TLS handshake
+   (crypto/tls authenticates certs[0]; with InsecureSkipVerify nothing links
+   the further entries to it). *)
 Definition accept_diag (chain : list xcert) (hashes : list (Z * Z)) : list Z :=
   match chain with
   | [] => [ERR_PROPERTY; 10]
-  | [c] =>
+  | c :: _ =>
       if negb (advertises hashes (x_hash c)) then [ERR_PROPERTY; 11; x_hash c]
       else if negb (x_parse c) then [ERR_PROPERTY; 12]
       else if is_rsa c then [ERR_PROPERTY; 13; boolz (x_pubrsa c); x_sig c]
       else if negb (x_na c - x_nb c <=? spec_max_validity) then [ERR_PROPERTY; 14; x_na c - x_nb c]
       else if negb ((x_nb c <=? 0) && (0 <=? x_na c)) then [ERR_PROPERTY; 15; x_nb c; x_na c]
       else []
-  | _ => []
   end.
 
 Definition monitor_verify (chain : list xcert) (hashes : list (Z * Z)) (res : Z) : list Z :=
